@@ -45,26 +45,26 @@ type outSc struct {
 }
 
 type e2eScenario struct {
-	Tid       int      `json:"tid"`
-	Proto     string   `json:"proto"`
-	Kind      string   `json:"kind"`
-	Codec     string   `json:"codec"`
-	HTTP      int      `json:"http"`
-	Transport string   `json:"transport"` // mem | loop
-	Csend     string   `json:"csend"`
-	Cmin      int      `json:"cmin"`
-	Cacc      []string `json:"cacc"` // client's extra algorithms in registration order (gzip is built in)
-	Hpools    []string `json:"hpools"`
-	Hmin      int      `json:"hmin"`
-	ReqHdr    []kv     `json:"reqhdr"`
-	Req       []msgSc  `json:"req"`
-	RespHdr   []kv     `json:"resphdr"`
-	RespTrl   []kv     `json:"resptrl"`
-	Resp      []msgSc  `json:"resp"`
-	Out       outSc    `json:"out"`
-	Shared    bool     `json:"shared"` // use the process-wide client for this configuration (C13)
-	Echo      bool     `json:"echo"`   // bidi: the handler echoes; the client sends and receives concurrently
-	Peer      string   `json:"peer"`   // "server": the real client talks to the reference codec's conformant server
+	Tid       int               `json:"tid"`
+	Proto     string            `json:"proto"`
+	Kind      string            `json:"kind"`
+	Codec     string            `json:"codec"`
+	HTTP      int               `json:"http"`
+	Transport string            `json:"transport"` // mem | loop
+	Csend     string            `json:"csend"`
+	Cmin      int               `json:"cmin"`
+	Cacc      []string          `json:"cacc"` // client's extra algorithms in registration order (gzip is built in)
+	Hpools    []string          `json:"hpools"`
+	Hmin      int               `json:"hmin"`
+	ReqHdr    []kv              `json:"reqhdr"`
+	Req       []msgSc           `json:"req"`
+	RespHdr   []kv              `json:"resphdr"`
+	RespTrl   []kv              `json:"resptrl"`
+	Resp      []msgSc           `json:"resp"`
+	Out       outSc             `json:"out"`
+	Shared    bool              `json:"shared"` // use the process-wide client for this configuration (C13)
+	Echo      bool              `json:"echo"`   // bidi: the handler echoes; the client sends and receives concurrently
+	Peer      string            `json:"peer"`   // "server": the real client talks to the reference codec's conformant server
 	Choices   *refcodec.Choices `json:"choices"`
 }
 
